@@ -42,6 +42,7 @@ RULE += (' Also: sync() of built-in callables (next, bound list.pop / dict.get, 
 RULE += (' Also: sync() wrappers called with keywords of any name (function, self, args ...) and, stored as class attributes, through instances.')
 RULE += (" Also: the caller's one-shot iterator (synchronous or asynchronous) is still usable, with everything not taken, after an any_iter stream over it was closed early.")
 RULE += (' Also: any_iter over an async iterator that sets itself up in __aiter__.')
+RULE += (' Also: await_each over a sequence that offers __getitem__ only.')
 ASSUMPTIONS = ["direct specification oracle (no stdlib twin exists for these helpers)"]
 EXHAUSTIVE = {"quick": True, "thorough": True}
 MAX_SHARDS = 8
@@ -70,6 +71,7 @@ def cases(tier, seed, shard, nshards):
                             yield {"kind": "await_each", "n": n, "steps": steps, "susp": susp, "cont": "worklist"}
                             yield {"kind": "await_each", "n": n, "steps": steps, "susp": susp, "cont": "fresh"}
                             yield {"kind": "await_each", "n": n, "steps": steps, "susp": susp, "cont": "queue_filled_later"}
+                            yield {"kind": "await_each", "n": n, "steps": steps, "susp": susp, "cont": "getitem_sequence"}
                         for aw_kind in ("legacy", "mixed", "bad"):
                             yield {"kind": "await_each", "n": n, "steps": steps, "susp": susp, "cont": cont, "aw_kind": aw_kind}
     for n in range(0, 6):
@@ -620,6 +622,22 @@ def run_await_each(case, stats):
         # reaches them): the caller's list is iterated live, not a snapshot of it
         arg = coros[:(n + 1) // 2]
         later = coros[(n + 1) // 2:]
+    if case["cont"] == "getitem_sequence":
+        # iterable through the sequence protocol only (``__getitem__`` with 0.., IndexError at the end; no ``__iter__``):
+        # what a ``for`` loop accepts is what await_each accepts
+        class JobSequence:
+            def __init__(self, jobs):
+                self._jobs = jobs
+
+            def __getitem__(self, index):
+                job = self._jobs[index]
+                drawn.append(index)
+                return job
+
+            def __len__(self):
+                return len(self._jobs)
+
+        arg = JobSequence(coros)
     late = []
     if case["cont"] == "queue_filled_later":
         # a queue (deque) handed over while it is still being filled: the stream is created first, the rest of the work
